@@ -24,6 +24,7 @@ The same records plus the stage texts are always written to fd 3 (/dev/null or a
 """
 import os
 import sys
+import re
 import json
 import signal
 import hashlib
@@ -231,6 +232,9 @@ def _on_alarm(signum, frame):
     raise CpuTimeout()
 
 
+ADDRESS = re.compile(r" at 0x[0-9a-fA-F]+")
+
+
 def dg(text):
     if isinstance(text, str):
         text = text.encode()
@@ -325,8 +329,8 @@ def make_reporter(events):
                     code, rel = "unencodable:" + type(ex).__name__, ""
                 if code:
                     lines.append("%s %s %s ;; %s" % (code, type(ins).__name__, rel, shown))
-                else:
-                    lines.append("%s %s" % (type(ins).__name__, shown))
+                else:   # directives and place holders: no bytes; the printed form, minus any "object at 0x..." address
+                    lines.append("%s %s %s" % (type(ins).__name__, rel, ADDRESS.sub(" at 0x?", shown)))
             self.put("emit", "\n".join(lines))
 
     return Staging()
